@@ -1,5 +1,6 @@
 """C17 — xarray export/import is lossless and uses cell centres as coordinates."""
 import itertools
+import os
 import random
 from fractions import Fraction
 
@@ -12,18 +13,26 @@ from .core import Q, Qs, F
 import discretisedfield as df
 
 PID = "C17"
-RULE = ("(rt) fields on 1-4-d meshes (cell counts incl. 1, renamed dims, per-axis units, int- or float-typed corners, custom "
-        "tolerance factor), 1-4 components, float64/float32/int64/int32/complex128/complex64/bool data incl. NaN/inf/-0.0, "
+RULE = ("(rt) fields on 1-4-d meshes (cell counts incl. 1; renamed dims incl. names that are also attributes / methods of "
+        "xarray.DataArray or keys of its attrs: values, attrs, name, cell, pmin, nvdim, T, data, coords, dims, shape, size, "
+        "tolerance_factor, ...; per-axis units = ANY strings: default, ordinary, ALL axes dimensionless (''), SOME axes dimensionless, "
+        "blank / falsy-looking / non-ASCII / long strings ('0', 'None', 'False', ' ', tab, 'µm', 40 chars, a dimension's name, 'units'); "
+        "int- or float-typed corners; tolerance factor default / custom / 0 (legal and falsy) / 1; export name and unit arguments and the "
+        "field's own unit incl. the empty string), 1-4 components, float64/float32/int64/int32/complex128/complex64/bool data incl. NaN/inf/-0.0, "
         "labels default/custom/absent (vector) or present (scalar), through Field.to_xarray (name/unit arguments) and Field.from_xarray on the real DataArray "
-        "with attrs complete, EVERY subset of cell/pmin/pmax removed, tolerance_factor / one coordinate's units / the label "
-        "coordinate / everything removed; 40 % of these after a HISTORY of 1-3 in-place calls on field.mesh (translate; scale by scalar / "
+        "with attrs complete, EVERY subset of cell/pmin/pmax removed, tolerance_factor / one coordinate's units / EVERY coordinate's "
+        "units / the label coordinate / everything removed, ONE coordinate's units replaced by '' / ' ' / '0' / 'None' / 'False' / 'µm', "
+        "additional attributes on the array and on every coordinate; a long-axis stream (one axis of 60-250 cells against the model; "
+        "1000-6000 cells oracle-only); 40 % of these after a HISTORY of 1-3 in-place calls on field.mesh (translate; scale by scalar / "
         "per-axis / negative factors about pmin, pmax or the default centre; calls the code must refuse: wrong length, factor 0) preceded by "
         "one export: the model replays the history (T.stepM) from the state before it and its export is compared with the real one; "
         "exact regime (dyadic geometry: equality with the rational model) and tolerance regime "
         "(scales 1e-12..1e6, offsets up to 1000 cells: 16u bound); (uneven) one coordinate shifted by 0.3/0.05/0.01 cell (clear "
         "reject side of the relative spacing test rtol=1e-5) or 1e-8/1e-9 cell (clear accept side) at ALL scales 1e-12..1e6 and offsets up to 1e7 cells; (hand) hand-built DataArrays "
-        "(arange/int coordinates, missing coordinates, consistent or inconsistent attrs, single-cell axes with/without cell, evenly spaced DESCENDING "
-        "coordinates, labels that are attribute names of Field); (bad) missing/zero/negative/float/"
+        "(arange/int coordinates, missing coordinates, consistent or inconsistent attrs given as lists or numpy arrays, single-cell axes "
+        "with/without cell, evenly spaced DESCENDING coordinates, labels that are attribute names of Field; units on some / all "
+        "coordinates incl. '' on exactly one and odd strings; regions with a corner exactly at 0 on every axis and pmin / pmax "
+        "attributes equal to 0 that contradict the coordinates: a present attribute counts, falsy or not); (bad) missing/zero/negative/float/"
         "numpy nvdim, vector without vdims axis, non-DataArray argument, wrong/scaled cell, shifted pmax, swapped corners, "
         "duplicate labels, a label naming a method/property of Field, nvdim != axis length, transposed axes, dropped coordinate, dimension called 'vdims', non-string "
         "name/unit arguments, a cell size that rounds to zero cells >= 1e15 cells from the origin. Oracle on the real code: coordinates == cell centres (exact Fractions) of the mesh as it is at export time, inside their own cell, with "
@@ -45,7 +54,14 @@ ASSUMPTIONS = ["exact regime: dyadic corners and cells, every binary64 operation
                "place changes the cell counts under the field's array and is not a state the property speaks about)",
                "cases whose largest spacing deviation is within a factor 3.3 of the spacing threshold 1e-5*|mean| are not compared "
                "(incidental threshold)"]
-UNPROVED = ["labels of a vector field WITHOUT labels (vdims=[]) and of a scalar field WITH a label are not preserved: the importer "
+UNPROVED = ["a dimension called 'units' is NOT generated by default (VERIF_C17_DIM_UNITS=1 switches it on): from_xarray reads "
+            "`xa[i].units`, which xarray resolves to the coordinate of that name instead of the attribute, so the import of the real "
+            "export raises TypeError (finding D117, reported); the model, which addresses attributes by key, accepts it",
+            "axes of more than 300 cells are judged by the oracle on the real code only (exact cell centres, round trip, rebuild): "
+            "the Lean model's list-based arrays are too slow there; the theorems themselves hold for every size",
+            "units that are not strings on a hand-built DataArray (None, numbers) are outside the model (Coord.units : Option String) "
+            "and outside the property; not generated",
+            "labels of a vector field WITHOUT labels (vdims=[]) and of a scalar field WITH a label are not preserved: the importer "
             "assigns the constructor defaults (xa_roundtrip_unlabelled / xa_roundtrip_labels_iff prove exactly this of the model; finding D81)",
             "unit, validity mask, bc, subregions and vdim_mapping are not restored by from_xarray (xa_not_restored; not in the property's list)",
             "binary64 rounding of linspace / diff / mean / c/2 is not modelled: theorems are over Q, the tolerance regime of the "
@@ -57,7 +73,17 @@ BUDGET = {"quick": 85, "thorough": 800}
 
 U = Fraction(1, 2 ** 53)
 DIMS = ["x", "y", "z", "a", "b", "c", "u", "v", "w", "t", "xx", "r0", "dim_1", "ξ"]
+# dimension names that are also names of attributes / methods of xarray.DataArray, keys of its attrs or names the importer
+# itself uses: the importer must address coordinates and attributes by key, never by attribute access
+XR_DIMS = ["values", "attrs", "name", "cell", "pmin", "pmax", "nvdim", "T", "data", "coords", "dims", "shape", "size", "n",
+           "region", "mean", "self", "tolerance_factor", "sel", "loc", "item", "p1", "p2", "vdim", "unit"]
+# VERIF_C17_DIM_UNITS=1: a dimension called "units" (finding D117: from_xarray reads `xa[i].units`, which xarray resolves to the
+# COORDINATE called units, not to the attribute, so the import of the real export raises TypeError).  Off by default.
+DIM_UNITS = os.environ.get("VERIF_C17_DIM_UNITS") == "1"
 UNITS = ["m", "nm", "um", "s", "rad", "1/m"]
+# any string is a legal unit of a Region: the empty string (a dimensionless axis), strings that are falsy / look like None /
+# numbers, blanks, non-ASCII, long ones, the attribute's own name
+ODD_UNITS = ["", "", "", " ", "0", "1", "None", "False", "nan", "µm", "Å", "m/s^2", "m" * 40, "a b", "units", "\t", "%", "'"]
 LABELS = [c for c in ["a", "b", "c", "d", "mx", "my", "mz", "p", "q", "α", "v_1", "x", "y", "z", "x1", "vx", "None"]
           if not hasattr(df.Field, c)]
 RESERVED = [c for c in ["mesh", "array", "norm", "valid", "unit", "mean", "to_xarray", "nvdim", "vdims", "dtype", "_array", "_mesh",
@@ -126,13 +152,59 @@ def xa_json(xa):
 
 
 # --------------------------------------------------------------------------- generators
-def gen_geom(rng, tier, regime, min_n=1, ndim=None, emax=6, force3=False, far=False):
+def gen_units(rng, ndim, dims):
+    """None (the constructor's default) / ordinary units / all axes dimensionless ("") / SOME axes dimensionless / any strings
+    (falsy-looking, blank, non-ASCII, long, equal to a dimension name)"""
+    r = rng.random()
+    if r < 0.3:
+        return None
+    if r < 0.5:
+        return [rng.choice(UNITS) for _ in range(ndim)]
+    if r < 0.6:
+        return [""] * ndim
+    if r < 0.8:
+        u = [rng.choice(UNITS) for _ in range(ndim)]
+        for a in rng.sample(range(ndim), rng.randint(1, max(1, ndim - 1))):
+            u[a] = ""
+        return u
+    pool = UNITS + ODD_UNITS + list(dims or ["x", "y"])
+    return [rng.choice(pool) for _ in range(ndim)]
+
+
+def units_tag(units):
+    if units is None:
+        return "units:default"
+    if all(u == "" for u in units):
+        return "units:all-empty"
+    if any(u == "" for u in units):
+        return "units:some-empty"
+    return "units:odd" if any(u not in UNITS for u in units) else "units:ordinary"
+
+
+def gen_dims(rng, ndim):
+    r = rng.random()
+    if r < 0.4:
+        return None
+    if r < 0.75:
+        return rng.sample(DIMS, ndim)
+    d = rng.sample(XR_DIMS, rng.randint(1, ndim))           # names xarray / the importer also use
+    d = d + rng.sample(DIMS, ndim - len(d))
+    rng.shuffle(d)
+    if DIM_UNITS and rng.random() < 0.5:
+        d[rng.randrange(ndim)] = "units"
+    return d
+
+
+def gen_geom(rng, tier, regime, min_n=1, ndim=None, emax=6, force3=False, far=False, long=False):
     ndim = ndim or rng.choice([1, 2, 2, 3, 3, 4])
     big = 6 if tier == "quick" else 9
     n = [max(min_n, rng.choice([1, 2, 2, 3, 3, 4, 5, big])) for _ in range(ndim)]
     while int(np.prod(n)) > 100:
         k = rng.randrange(ndim)
         n[k] = max(min_n, n[k] - 1)
+    if long:                                                             # one axis of hundreds / thousands of cells
+        n = [rng.choice([1, 2, 2, 3]) for _ in range(ndim)]
+        n[rng.randrange(ndim)] = long if ndim == 1 else max(40, long // 4)
     if force3 and max(n) < 3:                                            # an axis on which spacing can be uneven
         n[rng.randrange(ndim)] = rng.choice([3, 4, 5, 7])
     if regime == "exact":
@@ -157,9 +229,9 @@ def gen_geom(rng, tier, regime, min_n=1, ndim=None, emax=6, force3=False, far=Fa
         for a in range(ndim):
             if rng.random() < 0.5:
                 p1[a], p2[a] = p2[a], p1[a]
-    dims = rng.sample(DIMS, ndim) if rng.random() < 0.5 else None
-    units = [rng.choice(UNITS) for _ in range(ndim)] if rng.random() < 0.5 else None
-    tol = rng.choice([None, None, 1e-6, 1e-9, 0.5 ** 20])
+    dims = gen_dims(rng, ndim)
+    units = gen_units(rng, ndim, dims)
+    tol = rng.choice([None, None, None, 1e-6, 1e-9, 0.5 ** 20, 0, 0.0, 1.0])     # 0: a legal (exact comparisons) falsy factor
     return dict(p1=p1, p2=p2, n=n, dims=dims, units=units, tol=tol, regime=regime, scale_exp=scale_exp)
 
 
@@ -175,7 +247,7 @@ def gen_fieldspec(rng, geom, allow_unlabelled=True):
         labels = rng.sample(LABELS, nv)
     else:
         labels = []                                                      # vector field without labels
-    return dict(nvdim=nv, dtype=rng.choice(DTYPES), labels=labels, unit=rng.choice([None, None, "A/m", "T"]),
+    return dict(nvdim=nv, dtype=rng.choice(DTYPES), labels=labels, unit=rng.choice([None, None, "A/m", "T", ""]),
                 special=rng.random() < 0.15, mask=rng.random() < 0.3)
 
 
@@ -257,14 +329,20 @@ def cases(rng, tier):
 def _streams(rng, tier):
     q = tier == "quick"
 
-    def rt(regime, cnt):
+    def rt(regime, cnt, long=None):
+        """long: one axis of hundreds of cells (model and code compared) or thousands (the Lean model's lists are too slow there:
+        these cases carry nomodel=True and are judged by the oracle on the real code alone)"""
         for _ in range(cnt):
-            g = gen_geom(rng, tier, regime)
+            size = rng.choice(long) if long else False
+            g = gen_geom(rng, tier, regime, ndim=(rng.choice([1, 1, 2, 3]) if long else None), long=size)
             pre = None
             if rng.random() < 0.4:       # history: export once, change the mesh in place (1-3 calls), then run the whole case on the changed field
                 pre = [gen_meshop(rng, g, regime) for _ in range(rng.choice([1, 1, 2, 3]))]
-            yield dict(kind="rt", geom=g, fs=gen_fieldspec(rng, g), sub=rng.getrandbits(32), pre=pre,
-                       name=rng.choice([None, None, "m", "field_1"]), unit=rng.choice([None, None, "T", ""]))
+            c = dict(kind="rt", geom=g, fs=gen_fieldspec(rng, g), sub=rng.getrandbits(32), pre=pre,
+                     name=rng.choice([None, None, "m", "field_1", ""]), unit=rng.choice([None, None, "T", ""]))
+            if long and max(g["n"]) > 300:
+                c["nomodel"] = True
+            yield c
 
     def uneven(cnt):
         for _ in range(cnt):
@@ -291,6 +369,10 @@ def _streams(rng, tier):
     yield uneven(450 if q else 3500)
     yield hand(350 if q else 2500)
     yield bad(540 if q else 4000)
+    yield rt("exact", 6 if q else 40, long=[60, 120, 250])
+    yield rt("tol", 6 if q else 40, long=[60, 120, 250])
+    yield rt("exact", 8 if q else 50, long=[1000, 2500, 4000, 6000])
+    yield rt("tol", 8 if q else 50, long=[1000, 2500, 4000, 6000])
 
 
 # --------------------------------------------------------------------------- running the real code
@@ -303,8 +385,9 @@ def try_import(arg):
 
 def rec_import(obs, name, xa, other=False):
     g, err = try_import(xa)
-    obs["imports"].append(dict(name=name, xa=(None if other else xa_json(xa)), err=err,
-                               field=(field_json(g) if g is not None else None)))
+    skip = other or obs.get("nomodel")          # (oracle-only cases: nothing is sent to the model)
+    obs["imports"].append(dict(name=name, xa=(None if skip else xa_json(xa)), err=err,
+                               field=(field_json(g) if g is not None and not obs.get("nomodel") else None)))
     return g, err
 
 
@@ -393,7 +476,7 @@ def export_oracle(f, xa, case, fail):
     exp_unit = case.get("unit") or f.unit
     if at.get("units") != exp_unit:
         fail(f"export: attribute units is {at.get('units')!r} instead of {exp_unit!r}")
-    exp_name = case.get("name") or "field"
+    exp_name = case["name"] if case.get("name") is not None else "field"      # (an empty name is a string like any other)
     if xa.name != exp_name:
         fail(f"export: name {xa.name!r} instead of {exp_name!r}")
     src = f.array if f.nvdim > 1 else f.array[..., 0]
@@ -435,7 +518,11 @@ def run_rt(case, obs, fail):
     bnd = bound(f, regime)
     obs["field"] = field_json(f)
     xa = export(f, case)
-    obs["xa"] = xa_json(xa)
+    if case.get("nomodel"):
+        obs["nomodel"] = True
+        obs["tags"].append("oracle-only")
+    else:
+        obs["xa"] = xa_json(xa)
     export_oracle(f, xa, case, fail)
     single = any(int(k) == 1 for k in f.mesh.n)
     # complete attributes
@@ -477,6 +564,36 @@ def run_rt(case, obs, fail):
         fail(f"import without units on {d} raised {err}")
     else:
         mesh_matches(g, f, Fraction(0), fail, f"without units on {d}", units=False)
+    # units attribute removed from EVERY coordinate (array attributes kept): which default, model vs code only
+    xa5 = xa.copy()
+    for dd in f.mesh.region.dims:
+        xa5[dd].attrs = {}
+    g, err = rec_import(obs, "no:units-all", xa5)
+    if g is None:
+        fail(f"import without units on any coordinate raised {err}")
+    else:
+        mesh_matches(g, f, Fraction(0), fail, "without units on any coordinate", units=False)
+    # ONE coordinate's units replaced by another string - empty, blank, falsy-looking (model vs code: the importer takes the
+    # strings the coordinates carry, whatever they are)
+    newu = ["", "", " ", "0", "None", "µm", "False"][(case["sub"] >> 5) % 7]
+    xa6 = xa.copy()
+    xa6[d].attrs = dict(units=newu)
+    g, err = rec_import(obs, "units:set", xa6)
+    if g is None:
+        fail(f"import with units {newu!r} on {d} raised {err}")
+    else:
+        mesh_matches(g, f, Fraction(0), fail, f"units {newu!r} on {d}", units=False)
+    # attributes nobody asked for (on the array and on every coordinate) change nothing
+    xa7 = xa.copy()
+    xa7.attrs = dict(xa.attrs, long_name="a field", p1=[0.0], comment="", n=[1])
+    for dd in f.mesh.region.dims:
+        xa7[dd].attrs = dict(xa7[dd].attrs, long_name=dd, axis="X", unit="?")
+    g, err = rec_import(obs, "extra-attrs", xa7)
+    if g is None:
+        fail(f"import with additional attributes raised {err}")
+    else:
+        mesh_matches(g, f, Fraction(0), fail, "with additional attributes")
+        values_match(g, f, fail, "with additional attributes")
     if "vdims" in xa.coords:
         g, err = rec_import(obs, "no:labels", xa.drop_vars("vdims"))
         if g is None:
@@ -497,7 +614,16 @@ def run_rt(case, obs, fail):
         values_match(g, f, fail, "bare DataArray")
     obs["tags"] += [f"ndim:{f.mesh.region.ndim}", f"nvdim:{f.nvdim}", f"dtype:{f.array.dtype}", f"regime:{regime}",
                     "single-cell-axis" if single else "n>=2", "labels:" + ("default" if fs["labels"] is None else "none" if fs["labels"] == [] else "scalar-label" if fs["nvdim"] == 1 else "custom"),
-                    "corners:" + str(f.mesh.region.pmin.dtype.kind), "renamed" if geom["dims"] else "default-dims"]
+                    "corners:" + str(f.mesh.region.pmin.dtype.kind), "renamed" if geom["dims"] else "default-dims",
+                    units_tag(geom["units"]), "tol:" + ("default" if geom["tol"] is None else "0" if geom["tol"] == 0 else "custom"),
+                    "name:" + ("default" if case.get("name") is None else "empty" if case["name"] == "" else "given"),
+                    "field-unit:" + ("none" if fs["unit"] is None else "empty" if fs["unit"] == "" else "given")]
+    if geom["dims"] and any(dd in XR_DIMS for dd in geom["dims"]):
+        obs["tags"].append("dims:xarray-attribute-name")
+    if geom["dims"] and "units" in geom["dims"]:
+        obs["tags"].append("dims:units")
+    if max(geom["n"]) >= 50:
+        obs["tags"].append("long-axis:" + ("<1000" if max(geom["n"]) < 1000 else ">=1000"))
     if regime == "tol":
         obs["tags"].append(f"decade:{geom['scale_exp']}")
     obs["nontrivial"] = len(f.mesh) >= 2 and len(set(obs["field"]["data"])) > 1 and obs["imports"][0]["err"] is None
@@ -548,13 +674,19 @@ def run_hand(case, obs, fail):
     ndim = rng.choice([1, 2, 2, 3])
     nv = rng.choice([1, 1, 2, 3])
     n = [rng.choice([1, 2, 3, 4, 5]) if rng.random() < 0.15 else rng.choice([2, 3, 4, 5]) for _ in range(ndim)]
-    dims = rng.sample(DIMS, ndim)
+    dims = rng.sample(DIMS + XR_DIMS, ndim)
     h = [Fraction(rng.choice([1, 1, 3, 5]), 2 ** rng.randint(0, 3)) for _ in range(ndim)]
     v0 = [Fraction(rng.randint(-40, 40), 2 ** rng.randint(0, 2)) for _ in range(ndim)]
     integer = rng.random() < 0.3
     if integer:
         h = [Fraction(rng.choice([1, 1, 2, 3])) for _ in range(ndim)]
         v0 = [Fraction(rng.randint(-20, 20)) for _ in range(ndim)]
+    zero = rng.random() < 0.12      # a region with a corner exactly at 0 on every axis: attributes that are present but falsy
+    if zero:
+        if integer:
+            h = [Fraction(2)] * ndim
+        n = [max(2, k) for k in n]
+        v0 = [(x / 2 if rng.random() < 0.5 else -(k - 1) * x - x / 2) for x, k in zip(h, n)]
     coords = {}
     dropped = []
     for a, d in enumerate(dims):
@@ -579,7 +711,7 @@ def run_hand(case, obs, fail):
     attrs = dict(nvdim=nv)
     lo = [v0[a] - h[a] / 2 for a in range(ndim)]
     hi = [v0[a] + (n[a] - 1) * h[a] + h[a] / 2 for a in range(ndim)]
-    mode = rng.choice(["none", "none", "consistent", "cell", "p", "inconsistent"])
+    mode = rng.choice(["none", "none", "consistent", "cell", "p", "inconsistent", "zero-corner"])
     if mode in ("consistent", "cell"):
         attrs["cell"] = [float(x) for x in h]
     if mode in ("consistent", "p"):
@@ -588,10 +720,29 @@ def run_hand(case, obs, fail):
     if mode == "inconsistent":
         k = rng.choice(["cell", "pmin", "pmax"])
         attrs[k] = [float(x) * rng.choice([2, 0.5]) + rng.choice([0, 1]) for x in (h if k == "cell" else lo if k == "pmin" else hi)]
+    if mode == "zero-corner":
+        # pmin (or pmax) = 0 on every axis although the coordinates say otherwise: a present attribute is used, falsy or not
+        # (model vs code only; the edge / cell ratios stay >= 1/20 clear of the 0.1 % divisibility threshold)
+        k = rng.choice(["pmin", "pmax"])
+        attrs[k] = [0.0] * ndim
+        if rng.random() < 0.5:
+            attrs["cell"] = [float(x) for x in h]
+    if rng.random() < 0.5:          # attributes as numpy arrays (as the exporter writes them) or as lists
+        attrs = {k: (np.array(v) if isinstance(v, list) else v) for k, v in attrs.items()}
     xa = xr.DataArray(data, dims=xdims, coords=coords, attrs=attrs, name="hand")
-    for d in dims:
-        if d in xa.coords and rng.random() < 0.4:
+    umode = rng.choice(["some", "some", "all", "all-odd", "one-empty"])
+    for a, d in enumerate(dims):
+        if d not in xa.coords:
+            continue
+        if umode == "some":
+            if rng.random() < 0.4:
+                xa[d].attrs["units"] = rng.choice(UNITS + ["", ""])
+        elif umode == "all":
             xa[d].attrs["units"] = rng.choice(UNITS)
+        else:
+            xa[d].attrs["units"] = rng.choice(UNITS + ODD_UNITS)
+    if umode == "one-empty" and any(d in xa.coords for d in dims):
+        xa[rng.choice([d for d in dims if d in xa.coords])].attrs["units"] = ""
     g, err = rec_import(obs, "hand", xa)
     single = any(k == 1 for k in n)
     if labels is not None and attrs_of(labels):
@@ -617,6 +768,9 @@ def run_hand(case, obs, fail):
                 fail("rebuild: values differ from the DataArray's")
             if labels is not None and [str(v) for v in g.vdims] != labels:
                 fail(f"rebuild: labels {g.vdims} instead of {labels}")
+    ug = [xa[d].attrs.get("units") for d in dims if d in xa.coords]
+    obs["tags"] += ["coord-units:" + ("none" if all(u is None for u in ug) else "partial" if any(u is None for u in ug) else units_tag(ug)[6:]),
+                    "zero-corner" if zero else "corners-nonzero"]
     obs["tags"] += ["attrs:" + mode, "int-coords" if integer else "float-coords", "dropped-coord" if dropped else "all-coords",
                     "single-cell-axis" if single else "n>=2", "accepted" if g is not None else "rejected"]
     obs["nontrivial"] = g is not None and int(np.prod(n)) >= 2
@@ -735,6 +889,8 @@ def run_impl(case):
 # --------------------------------------------------------------------------- model side
 def model_requests(case, obs):
     reqs = []
+    if case.get("nomodel"):
+        return reqs
     if "xa" in obs:
         r = dict(op="export", field=obs["field"], attrs=attrs_of(obs["field"]["vdims"]))
         if case.get("name") is not None:
@@ -825,8 +981,30 @@ def case_bound(case, obs):
     return 16 * U * max([abs(x) for x in lo + hi] + [b - a for a, b in zip(lo, hi)])
 
 
+def hist_bound(case, obs, bnd):
+    """bound for the export after an in-place history replayed by the model from the state BEFORE it: every call rounds at the
+    magnitude the geometry has at that moment and later factors multiply the error, so the bound is taken at the largest
+    magnitude on the way (start and end geometry, translation vectors; x the product of the factors >= 1), not at the end
+    state alone (a translation that lands next to the origin cancels most of the magnitude, not the rounding error)"""
+    if bnd == 0:
+        return bnd
+    r0 = obs["field0"]["mesh"]["region"]
+    lo, hi = [F(x) for x in r0["pmin"]], [F(x) for x in r0["pmax"]]
+    mag = max([abs(x) for x in lo + hi] + [b - a for a, b in zip(lo, hi)])
+    grow = Fraction(1)
+    for op in obs["hist"]:
+        if op["op"] == "translate":
+            mag += max([abs(F(x)) for x in op["v"]] + [Fraction(0)])
+        else:
+            fs = op["f"] if isinstance(op["f"], list) else [op["f"]]
+            grow *= max([Fraction(1)] + [2 * abs(F(x)) + 1 for x in fs])       # |ref + f (p - ref)| <= (2|f| + 1) max(|p|, |ref|)
+    return max(bnd, 16 * U * mag * grow)
+
+
 def compare(case, obs, rs):
     dis = []
+    if case.get("nomodel"):
+        return dis
     bnd = case_bound(case, obs)
     pos = 0
     if "xa" in obs:
@@ -847,7 +1025,7 @@ def compare(case, obs, rs):
             if r.get("wf") is not True:
                 dis.append("the model's field after the in-place history is not well-formed")
             tmp = []
-            cmp_xa(obs["xa"], r["ok"], bnd, tmp)
+            cmp_xa(obs["xa"], r["ok"], hist_bound(case, obs, bnd), tmp)
             dis += [f"after the in-place history {obs['hist']}: {d}" for d in tmp]
     if "export_args" in obs:
         r = rs[pos]
@@ -873,6 +1051,9 @@ def nontrivial(case, obs):
 
 
 def known(case, text):
+    # D117 (only generated with VERIF_C17_DIM_UNITS=1): a dimension called "units" - `xa[i].units` is the coordinate, not the attribute
+    if "units" in (case.get("geom", {}).get("dims") or []) and "TypeError" in text:
+        return "D117"
     # D81: labels survive only for labelled vector fields and unlabelled scalar fields: a vector field without labels
     # (vdims=[]) comes back with the default labels, a scalar field with a label comes back without
     if case["kind"] == "rt" and text.startswith("labels changed:"):
